@@ -404,7 +404,11 @@ pub fn run(ctx: &Ctx) -> i32 {
     let (_sp, n) = space(ctx.tier);
     let mut acc = Acc::default();
     // probe the known reader-hang class in isolated children (3 s wall, 2 GiB address space)
-    let probes: [(&[u8], u8); 11] = [
+    let probes: [(&[u8], u8); 15] = [
+        (b"\r%a", 2),
+        (b"a: 1\r...\r%FOO", 6),
+        (b"a\r\n...\r\n%a", 3),
+        (b"\xef\xbb\xbf\r%", 8),
         (b"%", 2),
         (b"%a", 2),
         (b"%YAML", 6),
